@@ -307,6 +307,9 @@ pub fn run_srv(toks: &[&str], dir: &Path) -> String {
             settle(step[1..].parse().unwrap());
             continue;
         }
+        if kind == "x" {
+            continue; // model-side marker: the abandoned worker of this client has given up by now
+        }
         let c: usize = step[1..2].parse().unwrap();
         if peers[c].is_none() {
             peers[c] = Some(Peer::new());
@@ -564,6 +567,20 @@ pub fn gen_srv(rng: &mut Rng, count: u64, tier: &str) -> Vec<String> {
     for (i, g) in grid.into_iter().enumerate() {
         if i % stride == (count as usize) % stride {
             out.push(g);
+        }
+    }
+    // retransmitted / duplicate write requests for one name (overlapping uploads): timeout 1 s, the first worker is
+    // abandoned and gives up after six seconds
+    {
+        let t1 = vec![("timeout".to_string(), "1".to_string())];
+        let w = hex(&req(2, b"dup.bin", &t1));
+        // overwrite mode: the second request is accepted as well; the later failure of the first removes the completed upload
+        out.push(format!("srv o 0 {tree} q0:{w}:-;q1:{w}:UP900_5;w7300;x0;{probe}"));
+        // no-overwrite mode: the duplicate is refused, the first transfer is the only owner
+        out.push(format!("srv - 0 {tree} q0:{w}:-;q1:{w}:UP900_5;w7300;x0;{probe}"));
+        if tier == "thorough" {
+            out.push(format!("srv ok 0 {tree} q0:{w}:-;q1:{w}:UP900_5;w7300;x0;{probe}"));
+            out.push(format!("srv os 0 {tree} q0:{w}:-;q1:{w}:UP900_5;w7300;x0;{probe}"));
         }
     }
     for _ in 0..count {
